@@ -8,7 +8,14 @@ func bytesReader(b []byte) *bytes.Reader { return bytes.NewReader(b) }
 // so that a seed replays exactly, independent of the Go release.
 type Rng struct{ s uint64 }
 
-func NewRng(seed uint64) *Rng { return &Rng{s: seed*0x9E3779B97F4A7C15 + 0x1234567} }
+func NewRng(seed uint64) *Rng {
+	// run the seed through the splitmix64 finaliser: with a linear map, NewRng(seed+1) would be
+	// NewRng(seed) advanced by one step and consecutive seeds would generate overlapping streams
+	z := seed + 0x9E3779B97F4A7C15
+	z = (z ^ (z >> 30)) * 0xBF58476D1CE4E5B9
+	z = (z ^ (z >> 27)) * 0x94D049BB133111EB
+	return &Rng{s: z ^ (z >> 31)}
+}
 
 func (r *Rng) U64() uint64 {
 	r.s += 0x9E3779B97F4A7C15
@@ -39,4 +46,4 @@ func (r *Rng) Float01() float64 { return float64(r.U64()>>11) / (1 << 53) }
 func Pick[X any](r *Rng, xs []X) X { return xs[r.Intn(len(xs))] }
 
 // Fork derives an independent generator (per case), so cases can be regenerated alone.
-func (r *Rng) Fork() *Rng { return &Rng{s: r.U64()} }
+func (r *Rng) Fork() *Rng { return NewRng(r.U64()) }
